@@ -18,32 +18,32 @@ CLAIMED = {
   technique="static analysis: outcome dataflow + path exploration over go/cfg, who-may-call table, comparison-shape agreement",
   ref="§4 C04"),
  "C05": dict(
-  text="Structural clauses of the distributed read path: every decode site of a coordinator *Response with an Err field surfaces a non-nil Err as a non-nil error on every path; retry loops and fan-outs return success only after every call of the round returned nil and mark failing nodes dirty before re-partitioning; per-iteration analysis of the shard-assignment loops shows each shard is appended to exactly one node bucket (or the mapping aborts); the already-mapped guard tests the map the loop fills; a failed framed exchange on a pooled connection is followed by MarkUnusable on every path; the value-type dispatch of the remote iterator path is exhaustive; a handler that streams a query iterator writes to the connection when streaming fails, before the connection closes (the reader takes a clean end of the connection for end of data); every fan-out of the cluster mappings passes the loop over the remote shard groups before a success return unless there are none.",
+  text="Structural clauses of the distributed read path: every decode site of a coordinator *Response with an Err field surfaces a non-nil Err as a non-nil error on every path; retry loops and fan-outs return success only after every call of the round returned nil and mark failing nodes dirty before re-partitioning; per-iteration analysis of the shard-assignment loops shows each shard is appended to exactly one node bucket (or the mapping aborts); the already-mapped guard tests the map the loop fills; a failed framed exchange on a pooled connection is followed by MarkUnusable on every path; the value-type dispatch of the remote iterator path is exhaustive; a handler that streams a query iterator writes to the connection when streaming fails, before the connection closes (the reader takes a clean end of the connection for end of data); every fan-out of the cluster mappings passes the loop over the remote shard groups before a success return unless there are none; the range predicates that select the shard groups of a query equal their specification.",
   note="Does not decide liveness of owners, equality of the merged result with a single-node result, or truncated streams. The skip of a shard with an empty owner list is exempted on the grounds that the metadata never publishes a live shard without owners (C06 invariant).",
   technique="static analysis: per-site nil/outcome dataflow, loop-iteration path counting, type-switch exhaustiveness",
   ref="§4 C05"),
  "C03": dict(
-  text="The outcome table of the cluster write path decided over every path of the per-owner goroutine and the collector (each path = one combination of per-owner outcomes): exactly one result per owner, hinted handoff offered exactly once exactly when required, accepted handoff = success under level any on both handoff branches, handoff error surfaces, required = 1 | floor(n/2)+1 | n by constant folding for n=1..64 with the level registry covered, success only under wrote >= required, partial/failed/timeout classification, honest remote acknowledgement (store returned nil / code 0), failed exchange poisons the pooled connection, one handoff processor per (node, shard).",
+  text="The outcome table of the cluster write path decided over every path of the per-owner goroutine and the collector (each path = one combination of per-owner outcomes): exactly one result per owner, hinted handoff offered exactly once exactly when required, accepted handoff = success under level any on both handoff branches, handoff error surfaces, required = 1 | floor(n/2)+1 | n by constant folding for n=1..64 with the level registry covered, success only under wrote >= required, partial/failed/timeout classification, honest remote acknowledgement (store returned nil / code 0), failed exchange poisons the pooled connection, one handoff processor per (node, shard); the collector loop is left only by a classified return or by running out of owners (no break/goto: the verdict must not depend on arrival order); no call into the handoff path transposes its two same-typed ids (argument names against the callee's parameter names, 57 sites).",
   note="Does not decide timing (success within the timeout) or goroutine scheduling; arrival order is irrelevant by construction because the collector only counts. Frozen exceptions: shard group gone, request without db/rp from an old sender.",
   technique="static analysis: path exploration with markers and outcome facts, integer expression folding, site rules",
   ref="§4 C03"),
  "C06": dict(
-  text="Structural clauses of metadata determinism and invariants: nothing nondeterministic (clock outside the excluded DeletedAt stamps, randomness, goroutines, select, order-sensitive map iteration) is reachable from storeFSM.Apply within services/meta; copy-on-write apply discipline on every path (only a clone is mutated and installed, never after a failed call, nothing mutated or rejected after installation; frozen who-may-store table); ID counters only grow; Apply's switch, the command-type registry and the validator table agree; the time predicates of shard-group selection, clipping, truncation and expiry equal their specification on every weak ordering of their operands (exhaustive truth tables); the owner round-robin advances one node per replica.",
+  text="Structural clauses of metadata determinism and invariants: nothing nondeterministic (clock outside the excluded DeletedAt stamps, randomness, goroutines, select, order-sensitive map iteration) is reachable from storeFSM.Apply within services/meta; copy-on-write apply discipline on every path (only a clone is mutated and installed, never after a failed call, nothing mutated or rejected after installation; frozen who-may-store table); ID counters only grow; Apply's switch, the command-type registry and the validator table agree; the time predicates of shard-group selection, clipping, truncation and expiry equal their specification on every weak ordering of their operands (exhaustive truth tables); the owner round-robin advances one node per replica; the snapshot codec agrees with itself (every field transfer of marshal/unmarshal in services/meta has matching field and getter names, 52 transfers).",
   note="Does not decide disjointness/ID uniqueness after arbitrary command sequences as arithmetic facts, or evenness of spread beyond the round-robin stride. Trusts hashicorp/raft to deliver the same log everywhere.",
   technique="static analysis: call-graph closure lint, outcome dataflow + marked path exploration, exhaustive evaluation of compiled comparison predicates over all weak orderings",
   ref="§4 C06"),
  "C07": dict(
-  text="Structural clauses of metadata durability/convergence: clone completeness over the type graph of meta.Data (every reference-holding field re-allocated, reference-holding elements cloned element-wise), the raft snapshot captures an immutable *Data under the store lock and nothing that reaches the live store; no accepted request can panic Apply (asserted extension = validated extension per command type; no dereference of a may-return-nil lookup without a nil test anywhere in Apply's closure); marshal/unmarshal field agreement for every struct of the Data graph; acknowledgement only after raft commit and, on the client, after the cache reached the command's index.",
+  text="Structural clauses of metadata durability/convergence: clone completeness over the type graph of meta.Data (every reference-holding field re-allocated, reference-holding elements cloned element-wise), the raft snapshot captures an immutable *Data under the store lock and nothing that reaches the live store; no accepted request can panic Apply (asserted extension = validated extension per command type; no dereference of a may-return-nil lookup without a nil test anywhere in Apply's closure); marshal/unmarshal field agreement for every struct of the Data graph; acknowledgement only after raft commit and, on the client, after the cache reached the command's index; deep copies in clone methods are unconditional (only nil/length tests of the copied field may guard them); the long-poll registration (store.afterIndex) compares the index and hands out dataChanged in one critical section.",
   note="Does not decide raft itself, leader failover or convergence timing. Frozen exceptions: Data.adminUserExists is derived; retryUntilExec returns nil while the client is closing.",
   technique="static analysis: type-graph walk with per-field obligations, nil-fact dataflow, marshal/unmarshal field agreement",
   ref="§4 C07"),
  "C15": dict(
-  text="Structural clauses of inter-node protocol robustness and fidelity: every use of a length decoded from the wire (allocation size, slice bound, index) is guarded on every path (sign and upper bound; frame reader bounded by MaxMessageSize); request-type registry = dispatch cases; a request that fails to decode never reaches the store, an undecodable point makes the write request fail; marshal/unmarshal field agreement for every message struct, the five point codecs and the aux codec; no unchecked type assertion on decoded data; every 'unhandled case' panic reachable from the connection handler (CHA closure, ~4700 functions) is either in a type switch that misses no member of the value-type family or in a frozen, guard-checked row; failed exchanges poison pooled connections.",
+  text="Structural clauses of inter-node protocol robustness and fidelity: every use of a length decoded from the wire (allocation size, slice bound, index) is guarded on every path (sign and upper bound; frame reader bounded by MaxMessageSize); request-type registry = dispatch cases; a request that fails to decode never reaches the store, an undecodable point makes the write request fail; marshal/unmarshal field agreement for every message struct, the five point codecs and the aux codec; no unchecked type assertion on decoded data; every 'unhandled case' panic reachable from the connection handler (CHA closure, ~4700 functions) is either in a type switch that misses no member of the value-type family or in a frozen, guard-checked row; failed exchanges poison pooled connections; in every UnmarshalBinary of the coordinator's wire types the error of every fallible call is tested or returned.",
   note="Does not decide panics inside protobuf/snappy, semantic equality of decoded expressions, or allocation on the client side of a stream beyond the uint32 frame length. CHA call graph over the loaded packages; reflection not followed.",
   technique="static analysis: wire-length guard dataflow with decomposed branch conditions, registry/case-set agreement, codec field agreement, call-graph closure panic classification",
   ref="§4 C15"),
  "C08": dict(
-  text="Structural clauses of point routing: every write-path selector of a shard group by timestamp depends on DeletedAt/TruncatedAt and the metadata selector, clipping and truncation predicates equal their specification on every weak ordering of their operands; Covers(t) is ShardGroupAt(t) != nil; the shard is a function of the canonical series key alone (HashID reads only point.key, ShardFor = HashID % len(Shards), frozen table of key writers, tag sort covers all tags); per-iteration path counting shows every point is mapped or dropped exactly once, dropped only without a group, and a missing group fails the request; the retention cut-off is now-Duration for finite policies.",
+  text="Structural clauses of point routing: every write-path selector of a shard group by timestamp depends on DeletedAt/TruncatedAt and the metadata selector, clipping and truncation predicates equal their specification on every weak ordering of their operands; Covers(t) is ShardGroupAt(t) != nil; the shard is a function of the canonical series key alone (HashID reads only point.key, ShardFor = HashID % len(Shards), frozen table of key writers, tag sort covers all tags); per-iteration path counting shows every point is mapped or dropped exactly once, dropped only without a group, and a missing group fails the request; the retention cut-off is now-Duration for finite policies; the shard pointer that MapPoint keeps is the address of a variable of the current point's iteration.",
   note="Does not decide agreement between nodes' metadata caches at write time or properties of the hash function. One observed behaviour is not claimed: a too-old point is written (not dropped) when a group covering it is already in the per-request list.",
   technique="static analysis: field-dependency closure, exhaustive predicate truth tables, loop-iteration path counting, marked path exploration",
   ref="§4 C08"),
@@ -63,12 +63,12 @@ CLAIMED = {
   technique="static analysis: outcome/marker path exploration over go/cfg, registry agreement of the WAL entry family, exhaustive predicate evaluation over weak orderings, lock balance exploration",
   ref="§9 C10"),
  "C19": dict(
-  text="Structural necessary conditions of safe concurrent operation: every sync.Mutex/RWMutex acquisition in the anchored packages is released on every path before the function returns or covered by a deferred release (two intentional hand-offs are frozen rows with companion obligations); the lock-class graph 'M may be acquired while L is held' (with callee summaries) is acyclic; check-then-act under one lock for field creation (re-read after taking the mutex, existing type compared, update derived from the re-read map) and one hinted-handoff processor per queue; published metadata is immutable (clone completeness and value-snapshot rule shared with C07); variables captured by the coordinator's fan-out goroutines are written only under a mutex; connection-pool tokens are paired; cache snapshot, closed-segment list and segment roll happen in one critical section that excludes writers; a guarded-by table (hh.Service.processors, tsm1.FileStore.files, tsdb.Store.shards/sfiles, inmem.Index.measurements/series, query.TaskManager.queries): every access in the struct's methods happens with the mutex held, directly or through callers that all hold it.",
+  text="Structural necessary conditions of safe concurrent operation: every sync.Mutex/RWMutex acquisition in the anchored packages is released on every path before the function returns or covered by a deferred release (two intentional hand-offs are frozen rows with companion obligations); the lock-class graph 'M may be acquired while L is held' (with callee summaries) is acyclic; check-then-act under one lock for field creation (re-read after taking the mutex, existing type compared, update derived from the re-read map) and one hinted-handoff processor per queue; published metadata is immutable (clone completeness and value-snapshot rule shared with C07); variables captured by the coordinator's fan-out goroutines are written only under a mutex; connection-pool tokens are paired; cache snapshot, closed-segment list and segment roll happen in one critical section that excludes writers; a guarded-by table (hh.Service.processors, tsm1.FileStore.files, tsdb.Store.shards/sfiles, inmem.Index.measurements/series, query.TaskManager.queries): every access in the struct's methods happens with the mutex held, directly or through callers that all hold it; a snapshot's points leave the cache only after their file is installed, and a hinted-handoff segment that stops being the tail has flushed its buffered blocks (clauses shared with C01/C09 and C04).",
   note="Does not decide data-race freedom under every schedule (no sound alias analysis is available; locks are identified by access path and class), visibility of acknowledged writes to reads, or liveness.",
   technique="static analysis: exact per-path lock balance exploration, lock-class order graph (Tarjan SCC) with callee summaries, outcome/def facts for check-then-act, held-lock sets at captured-variable writes",
   ref="§9 C19"),
  "C02": dict(
-  text="Only the rejection/typing clauses and two structural read-path conditions of C02: in validateSeriesAndFields a point whose validation failed is never kept and one whose validation succeeded is always kept (per loop iteration, every path), every rejection is counted and surfaces as a PartialWriteError; Shard.WritePointsWithContext hands the engine exactly the validated slice and returns the partial error after a successful engine write; a field flagged with a type conflict is never appended to the values written; field creation re-checks the type under its mutex; the cache's per-entry type tag distinguishes all five value types; the write-path value-type dispatch is exhaustive; Values.Deduplicate sorts stably; every block read by a KeyCursor is filtered with the tombstones of its own file.",
+  text="Only the rejection/typing clauses and two structural read-path conditions of C02: in validateSeriesAndFields a point whose validation failed is never kept and one whose validation succeeded is always kept (per loop iteration, every path), every rejection is counted and surfaces as a PartialWriteError; Shard.WritePointsWithContext hands the engine exactly the validated slice and returns the partial error after a successful engine write; a field flagged with a type conflict is never appended to the values written; field creation re-checks the type under its mutex; the cache's per-entry type tag distinguishes all five value types; the write-path value-type dispatch is exhaustive; Values.Deduplicate sorts stably; every block read by a KeyCursor is filtered with the tombstones of its own file; who may hand out a cache entry's own value slice (frozen table: only Cache.values, called only by the compactor's cache key iterator); every field lookup tested for nil on the shard write path also compares the field's type (found the validate/create window, fixed in 92bc028).",
   note="Does not decide that reads equal a last-write-wins model over all layouts (a statement about run-time values): merge arithmetic across cache/files/compactions is not decided.",
   technique="static analysis: per-iteration marked path exploration with outcome facts, type-switch/value-switch exhaustiveness, call-shape rules on the read path",
   ref="§9 C02"),
